@@ -89,6 +89,21 @@ fn injections(rng: &mut Rng, w: &mut World, d: &mut Driver) -> Vec<Inj> {
     v.push(Inj { op: raw("brc20_deploy", json!({"from_pkscript": pk, "timestamp": ts, "hash": hash, "tx_idx": idx, "inscription_id": format!("inj-{}-neither", u), "inscription_byte_len": 1000, "op_return_tx_id": hist::ZERO_HASH})), kind: "neither-encoding", must_reject: true });
     v.push(Inj { op: raw("brc20_transact", json!({"raw_tx_data": "0x01", "base64_raw_tx_data": "AA", "timestamp": ts, "hash": hash, "tx_idx": idx, "inscription_id": format!("inj-{}-both-t", u), "inscription_byte_len": 1000, "op_return_tx_id": hist::ZERO_HASH})), kind: "both-encodings", must_reject: true });
     v.push(Inj { op: raw("brc20_transact", json!({"timestamp": ts, "hash": hash, "tx_idx": idx, "inscription_id": format!("inj-{}-neither-t", u), "inscription_byte_len": 1000, "op_return_tx_id": hist::ZERO_HASH})), kind: "neither-encoding", must_reject: true });
+    // both encodings where only one carries something decodable: still both
+    {
+        let good_b64 = hist::b64_of_hex(&data);
+        let (h, b): (Value, Value) = match rng.below(7) {
+            0 => (json!(data), json!("")),
+            1 => (json!(data), json!("!!!!")),
+            2 => (json!(data), json!("Aw")),
+            3 => (json!(data), json!(7)),
+            4 => (json!("0xzz"), json!(good_b64)),
+            5 => (json!(""), json!(good_b64)),
+            _ => (json!("0x"), json!(good_b64)),
+        };
+        v.push(Inj { op: raw("brc20_call", json!({"from_pkscript": pk, "contract_address": tool, "data": h, "base64_data": b, "timestamp": ts, "hash": hash, "tx_idx": idx, "inscription_id": format!("inj-{}-both1", u), "inscription_byte_len": 100000, "op_return_tx_id": hist::ZERO_HASH})), kind: "both-encodings-one-undecodable", must_reject: true });
+        v.push(Inj { op: raw("brc20_deploy", json!({"from_pkscript": pk, "data": if h.as_str() == Some(data.as_str()) { json!(hist::hx(&asm::tool_init())) } else { h.clone() }, "base64_data": if b.as_str() == Some(good_b64.as_str()) { json!(hist::b64_of_hex(&hist::hx(&asm::tool_init()))) } else { b.clone() }, "timestamp": ts, "hash": hash, "tx_idx": idx, "inscription_id": format!("inj-{}-both2", u), "inscription_byte_len": 100000, "op_return_tx_id": hist::ZERO_HASH})), kind: "both-encodings-one-undecodable", must_reject: true });
+    }
     // undecodable raw tx, malformed pkscript, non-numeric amount, missing fields
     v.push(Inj { op: Op::Transact { raw: format!("0x{}", hex::encode(rng.bytes(40))), enc: Enc::Hex, ctx: Ctx { ts, hash: hash.clone(), idx }, iid: format!("inj-{}-garbage", u), len: 1000, txid: hist::ZERO_HASH.into() }, kind: "undecodable-raw-tx", must_reject: true });
     v.push(Inj { op: Op::Deposit { pk: "zz-not-hex".into(), ticker: "inj".into(), amount: "0x1".into(), ctx: Ctx { ts, hash: hash.clone(), idx }, iid: format!("inj-{}-pk", u) }, kind: "malformed-pkscript", must_reject: true });
